@@ -81,10 +81,12 @@ impl TimerRuntime {
         })
     }
 
-    /// Wake all the timer futures that have reached their deadline.
-    pub fn wake(&mut self) {
+    /// Remove all the timers that have reached their deadline and return their
+    /// wakers. The caller wakes them after it has released its borrow of the
+    /// timer runtime: a waker may drop or create timers.
+    pub fn take_expired(&mut self) -> Vec<Waker> {
         if self.wheel.is_empty() {
-            return;
+            return Vec::new();
         }
 
         let now = Instant::now();
@@ -95,11 +97,7 @@ impl TimerRuntime {
         });
 
         let expired = mem::replace(&mut self.wheel, pending);
-        for (_, w) in expired {
-            if let Some(w) = w {
-                w.wake();
-            }
-        }
+        expired.into_values().flatten().collect()
     }
 
     pub fn poll_timer(&mut self, cx: &mut Context<'_>, key: &TimerKey) -> Poll<()> {
